@@ -55,7 +55,8 @@ class Problem:
             self.decls.append(f"(declare-fun {x[1]} () {self.S})")
         self.funs = []
         if self.uf:
-            self.funs = [("f", [self.S], self.S), ("g", [self.S, self.S], self.S), ("p", [self.S], "Bool")]
+            self.funs = [("f", [self.S], self.S), ("g", [self.S, self.S], self.S), ("p", [self.S], "Bool"),
+                         ("h", ["Bool"], self.S), ("q", ["Bool", self.S], "Bool")]
             for name, args, res in self.funs:
                 self.decls.append(f"(declare-fun {name} ({' '.join(args)}) {res})")
 
@@ -74,6 +75,8 @@ class Problem:
     def nterm(self, d=2):
         r = self.r
         c = r.random()
+        if self.uf and d > 0 and r.random() < getattr(self, 'pb', 0.08):
+            return ("uf", "h", self.S, [self.barg()])
         if self.S == "U":
             if d == 0 or c < 0.4 or not self.uf:
                 return r.choice(self.nums)
@@ -96,9 +99,24 @@ class Problem:
         k = r.choice([2, 3, -1, -2, 5])
         return ("app", "*", self.S, [("num", Fraction(k), self.S), self.nterm(d - 1)])
 
+    def barg(self):
+        """a Boolean argument of an uninterpreted function: a variable, its negation, a constant or a small formula"""
+        r = self.r
+        c = r.random()
+        b = r.choice(self.bools)
+        if c < 0.4:
+            return b
+        if c < 0.7:
+            return ("app", "not", "Bool", [b])
+        if c < 0.8:
+            return ("var", r.choice(["true", "false"]), "Bool")
+        return ("app", r.choice(["and", "or"]), "Bool", [b, r.choice(self.bools)])
+
     def atom(self):
         r = self.r
         c = r.random()
+        if self.uf and r.random() < getattr(self, 'pb', 0.06):
+            return ("uf", "q", "Bool", [self.barg(), self.nterm(1)])
         if not self.nums or c < 0.25:
             return r.choice(self.bools)
         if self.S == "U":
